@@ -18,6 +18,7 @@ func init() {
 func runC09(r *Report) {
 	ruleReadCheckOptionHonoured(r)
 	ruleStoredPayloadCovered(r)
+	ruleErrorIsLooksAtTarget(r)
 	p := r.P
 	o := &order{r, p}
 	const rv = "validate-always"
